@@ -32,6 +32,11 @@ var c02Reqs = []harness.ReqSpec{
 	{Tag: "d", Method: "POST", Path: "/d", Headers: [][2]string{{"Transfer-Encoding", "chunked"}, {"Cookie", "k=v"}}, Stream: [][]byte{[]byte("unk"), []byte("nown")}, Declared: -1},
 	{Tag: "e", Method: "POST", Path: "/e", Stream: [][]byte{}, Declared: -1},
 	{Tag: "f", Method: "POST", Path: "/f", Stream: [][]byte{}, Declared: 0},
+	{Tag: "g", Method: "POST", Path: "/g", Stream: [][]byte{[]byte("eof"), []byte("-with-data")}, Declared: 13, EOFWithLast: true},
+	{Tag: "h", Method: "POST", Path: "/h", Stream: [][]byte{[]byte("eof-with-data-unknown")}, Declared: -1, EOFWithLast: true},
+	{Tag: "i", Method: "PUT", Path: "/i", Stream: [][]byte{[]byte("one"), []byte("byte")}, Declared: -1, OneByte: true},
+	{Tag: "j", Method: "PUT", Path: "/j", Stream: [][]byte{[]byte(valOfLen(16384)), []byte(valOfLen(16385))}, Declared: 32769, EOFWithLast: true},
+	{Tag: "k", Method: "PUT", Path: "/k", Stream: [][]byte{[]byte("x")}, Declared: 1, OneByte: true, EOFWithLast: true},
 }
 
 type c02Resp struct {
@@ -43,6 +48,8 @@ type c02Resp struct {
 	Choice  string      `json:"choice,omitempty"` // representation of every field "rep/idx/hn/hv"
 	Pad     int         `json:"pad"`
 	EmptyES bool        `json:"end_on_empty_data"`
+	// Trailers: the response ends with a trailer section (a HEADERS frame with END_STREAM after the body)
+	Trailers bool `json:"trailers,omitempty"`
 }
 
 type c02Scenario struct {
@@ -190,7 +197,7 @@ func checkDelivered(call *harness.CCall, r c02Resp) (string, string) {
 		}
 	}
 	for n, vs := range have {
-		if n == "content-type" || n == "content-length" || n == "server" || n == "date" {
+		if n == "content-type" || n == "content-length" || n == "server" || n == "date" || n == "x-trailer" && r.Trailers {
 			continue
 		}
 		ok := false
@@ -229,6 +236,9 @@ func (r c02Resp) shape() string {
 	}
 	if r.EmptyES {
 		p = append(p, "end-on-empty-data")
+	}
+	if r.Trailers {
+		p = append(p, "trailers")
 	}
 	if len(p) == 0 {
 		return "default-encoding"
@@ -275,6 +285,15 @@ func (r c02Resp) track(sc *harness.SrvConn, id uint32) []tframe {
 				}
 			}
 		}
+		if r.Trailers {
+			for i := range frs {
+				if frs[i].Type == peer.TData || frs[i].Type == peer.THeaders {
+					frs[i].Flags &^= peer.FEndStream
+				}
+			}
+			blk := sc.Enc.Block([]ref.Field{{Name: "x-trailer", Value: "t"}}, nil)
+			frs = append(frs, peer.Headers(id, blk, peer.HeadersOpt{EndStream: true, EndHeaders: true, Pad: -1}))
+		}
 	}
 	var tr []tframe
 	// number of frames is known only after building; build eagerly per first use
@@ -285,6 +304,9 @@ func (r c02Resp) track(sc *harness.SrvConn, id uint32) []tframe {
 		nd = 1
 	}
 	if r.EmptyES {
+		nd++
+	}
+	if r.Trailers {
 		nd++
 	}
 	for i := 0; i < n+nd; i++ {
@@ -418,6 +440,11 @@ func runC02(c *fw.Ctx) {
 		r := base
 		r.Splits = []int{off}
 		do(c02Scenario{Family: "response-encoding", Reqs: []int{0}, Resps: []c02Resp{r}})
+		rt := r
+		rt.Trailers = true
+		do(c02Scenario{Family: "response-encoding", Reqs: []int{0}, Resps: []c02Resp{rt}})
+		rt.Body = ""
+		do(c02Scenario{Family: "response-encoding", Reqs: []int{0}, Resps: []c02Resp{rt}})
 		if thorough {
 			for off2 := off; off2 <= blockLen; off2 += 3 {
 				r2 := base
@@ -454,6 +481,8 @@ func runC02(c *fw.Ctx) {
 			for _, ees := range []bool{false, true} {
 				r := body3
 				r.Chunks, r.Pad, r.EmptyES = comp, pad, ees
+				do(c02Scenario{Family: "response-encoding", Reqs: []int{0}, Resps: []c02Resp{r}})
+				r.Trailers = true
 				do(c02Scenario{Family: "response-encoding", Reqs: []int{0}, Resps: []c02Resp{r}})
 			}
 		}
